@@ -49,8 +49,10 @@ func (w *c16World) HandleOperation(ctx context.Context, req kmip.OperationPayloa
 	w.started++
 	w.running++
 	if w.slow {
-		// a slow handler: returns only when its context is cancelled
+		// a slow handler: returns only when its context is cancelled — which
+		// shutdown may only do once the grace period has run out (its timer fired)
 		verifBlock(func() bool { return ctx.Err() != nil })
+		verifAssert("a running handler is cancelled only after the grace period", verifTimersFired() > 0)
 	} else {
 		verifYield()
 	}
